@@ -18,7 +18,8 @@ T0, STEP = 1000, 10
 class Table:
     """n rows; symbolic data columns, concrete times"""
 
-    def __init__(self, n, streams=('a', 'b'), missing=None, with_axes=('time', 'z', 'lat', 'lon'), index_labels=None):
+    def __init__(self, n, streams=('a', 'b'), missing=None, with_axes=('time', 'z', 'lat', 'lon'), index_labels=None, concrete=None):
+        self.concrete = concrete or {}       # column -> list of concrete numbers (instead of symbolic atoms)
         self.n = n
         self.t = [T0 + STEP * i for i in range(n)]
         self.streams = list(streams)
@@ -34,6 +35,8 @@ class Table:
                 out.append(El(X.num(self.t[i]), False))
             elif i in self.missing.get(col, ()):
                 out.append(El(X.NAN, False))
+            elif col in self.concrete:
+                out.append(El(X.num(self.concrete[col][i]), False))
             elif col == 'z':
                 out.append(El(X.num(5 + i), False))
             else:
@@ -79,6 +82,10 @@ def make_config_source(contexts):
         for sid, keys in c['tests'].items():
             mods = streams.setdefault(sid, collections.OrderedDict())
             for k in keys:
+                if isinstance(k, tuple):          # raw (module, test, kwargs) entry, e.g. a deliberately faulty one
+                    mod, test, kw = k
+                    mods.setdefault(mod, collections.OrderedDict())[test] = (dict(kw) if kw is not None else None)
+                    continue
                 mod, test, kw, _ = menu[k]
                 mods.setdefault(mod, collections.OrderedDict())[test] = dict(kw)
         d = collections.OrderedDict(streams=streams)
@@ -99,6 +106,8 @@ def expected_direct(runner, table, contexts):
             if sid not in table.streams:
                 continue
             for k in keys:
+                if isinstance(k, tuple):
+                    continue
                 mod, test, kw, needs = menu[k]
                 kwargs = dict(kw)
                 ok = True
